@@ -4,7 +4,7 @@ import ast
 
 from .. import AnalysisError
 from ..cfg import ALL_KINDS, NORMAL_KINDS, iter_own
-from ..lib import guard_forms, key_of, norm, render, root_name
+from ..lib import guard_forms, inline_locals, key_of, norm, render, root_name
 
 RUN_CMD = ("run_command.run_command", "run_command.check_run_command")
 HOOK_FIELDS = ("setup_command", "teardown_command", "node_setup_command", "node_teardown_command")
@@ -33,13 +33,21 @@ def expand_cmd(ctx, fn, site):
     return e, node
 
 
+def expand_cmd_deep(ctx, fn, site):
+    """expand_cmd with the locals inside the command text inlined too (`script = group...; cmd = f"{script} ..."`)."""
+    e, node = expand_cmd(ctx, fn, site)
+    if node is not None and isinstance(e, (ast.JoinedStr, ast.BinOp, ast.Call)):
+        e = inline_locals(ctx, fn, e, node)
+    return e, node
+
+
 def hook_sites(ctx, fn, field):
     """run_command/check_run_command sites that are the hook for JobConfiguration.<field>:
     the command argument reads the field, or the call is guarded by `<field> is not None`."""
     out = []
     want = f"<JobConfiguration.{field}>"
     for s in run_command_sites(ctx, fn):
-        e, node = expand_cmd(ctx, fn, s)
+        e, node = expand_cmd_deep(ctx, fn, s)
         reads = e is not None and want in render(ctx, fn, e)
         guarded = False
         for n in ctx.cfg(fn).nodes_of(s.node):
